@@ -49,6 +49,8 @@ S0 == [live |-> {},          \* ledger: ids handed out by the allocator and not 
        coderKind |-> "none", \* kind of the structure next.coder points to
        usable |-> FALSE,     \* next.code != NULL
        pend |-> FALSE,       \* threaded: a failed allocation not yet reported to the caller
+       stale |-> FALSE,      \* threaded: a worker's allocation failed while the coder was being re-initialised: the
+                             \* error may or may not survive the reset of thread_error (it races with it)
        objs |-> NoObjs,      \* caller-owned objects: alive, ids reachable from them
        snap |-> NoObjs,      \* objs at the beginning of the current call
        plive |-> {},         \* live at the beginning of the current call
@@ -86,9 +88,9 @@ BeginDo(s, c) ==
                         !.snap = s.objs, !.plive = s.live]
     IN CASE c.cls = "Init" ->
               IF s.internal = 0
-              THEN [s1 EXCEPT !.call.pc = "strm_init", !.usable = FALSE, !.pend = FALSE]   \* lzma_strm_init must allocate
+              THEN [s1 EXCEPT !.call.pc = "strm_init", !.usable = FALSE, !.pend = FALSE, !.stale = FALSE]   \* lzma_strm_init must allocate
               \* (stream_encoder_mt_init clears thread_error first: failures of the previous use are forgotten)
-              ELSE [NextCoderInit(s1, c.k) EXCEPT !.call.pc = "body", !.usable = FALSE, !.pend = FALSE]
+              ELSE [NextCoderInit(s1, c.k) EXCEPT !.call.pc = "body", !.usable = FALSE, !.pend = FALSE, !.stale = FALSE]
          [] c.cls \in {"Code", "Update", "Async"} -> [s1 EXCEPT !.call.pc = "code"]
          [] c.cls = "End" -> [s1 EXCEPT !.call.pc = "end", !.usable = FALSE]
          [] OTHER -> [s1 EXCEPT !.call.pc = "obj"]
@@ -167,7 +169,7 @@ WAllocDo(s, id) ==
     LET s1 == [s EXCEPT !.live = @ \cup {id}, !.hids = @ \cup {id}] IN
     IF OldCoderDying(s) THEN [s1 EXCEPT !.call.tofree = @ \cup {id}] ELSE [s1 EXCEPT !.coder = @ \cup {id}]
 WFailOK(s) == WorkerAlive(s)
-WFailDo(s) == [s EXCEPT !.pend = TRUE]
+WFailDo(s) == IF s.call.cls = "Init" THEN [s EXCEPT !.stale = TRUE] ELSE [s EXCEPT !.pend = TRUE]
 WFreeOK(s, id) == WorkerAlive(s) /\ (id \in s.call.tofree \/ (id \in s.coder /\ id # s.base))
 WFreeDo(s, id) ==
     LET s1 == LedgerFree(s, id) IN
@@ -200,7 +202,7 @@ RetOK(s, ret, same) ==
             /\ c.cls = "Update" => same
             /\ ret # "none"
             /\ IF s.init \in Threaded
-               THEN /\ ret = "MEM_ERROR" => (c.failed \/ s.pend)
+               THEN /\ ret = "MEM_ERROR" => (c.failed \/ s.pend \/ s.stale)
                     /\ ret = "STREAM_END" => ~(c.failed \/ s.pend)
                ELSE (ret = "MEM_ERROR") <=> (c.failed /\ Bug # "swallow")
       [] c.pc = "end" -> ret = "none" /\ (s.internal = 0 \/ Bug = "double_end") /\ s.coder = {}
@@ -222,10 +224,11 @@ RetDo(s, ret, same) ==
     IN CASE c.pc = "early_fail" -> fin(s)
          \* a worker of the reused threaded coder that fails while it is being stopped during this very call leaves
          \* its error behind: it is reported by a later lzma_code() of the new stream
-         [] c.pc = "body" -> fin([s EXCEPT !.usable = (ret = "OK"),
-                                           !.pend = s.pend /\ ret = "OK" /\ ~c.oldThr /\ c.k \in Threaded])
-         [] c.pc = "code" -> fin([s EXCEPT !.pend = IF ret = "MEM_ERROR" THEN FALSE ELSE (@ \/ c.failed) /\ (s.init \in Threaded)])
-         [] c.pc = "end" -> fin([s EXCEPT !.pend = FALSE, !.usable = FALSE])
+         [] c.pc = "body" -> fin([s EXCEPT !.usable = (ret = "OK"), !.pend = FALSE,
+                                           !.stale = s.stale /\ ret = "OK" /\ c.k \in Threaded])
+         [] c.pc = "code" -> fin([s EXCEPT !.pend = IF ret = "MEM_ERROR" THEN FALSE ELSE (@ \/ c.failed) /\ (s.init \in Threaded),
+                                           !.stale = IF ret = "MEM_ERROR" THEN FALSE ELSE @])
+         [] c.pc = "end" -> fin([s EXCEPT !.pend = FALSE, !.stale = FALSE, !.usable = FALSE])
          [] c.pc = "obj" /\ (c.failed \/ ret # "OK") -> fin(s)
          [] c.pc = "obj" ->
               CASE c.cls \in {"New", "Derive"} -> fin([s EXCEPT !.objs[c.tgt] = [alive |-> TRUE, own |-> c.tmp]])
